@@ -87,6 +87,10 @@ def run(tier):
          {"cfg": "n0", "batches": ["bm3"]}, {"cfg": "n0", "batches": ["bm1"]}],
         [{"cfg": "n0", "batches": ["b1"]}, {"cfg": "n0", "batches": ["bm2"]}, {"cfg": "t0", "batches": ["bm4"]},
          {"cfg": "t0", "batches": ["bm4", "bm1"]}],
+        # callers that ask / do not ask for statistics, in both orders
+        [{"cfg": "t0", "batches": ["b1", "b2"], "nostats": True}, {"cfg": "t0", "batches": ["b1", "b2"]},
+         {"cfg": "t0", "batches": ["b2"], "nostats": True}, {"cfg": "t5", "batches": ["b1"]},
+         {"cfg": "t5", "batches": ["b1"], "nostats": True}, {"cfg": "t5", "batches": ["b1"]}],
         # near-twins: mirror images, other spellings of the same reactions
         [{"cfg": "t0", "batches": ["bs1"]}, {"cfg": "t0", "batches": ["bs2"]}, {"cfg": "t0", "batches": ["bs1", "bs2"]}],
         [{"cfg": "t0", "batches": ["bo1"]}, {"cfg": "t0", "batches": ["bo2"]}, {"cfg": "t0", "batches": ["bo3"]},
